@@ -94,7 +94,23 @@ def run(A, R: Report, thorough: bool):
         if t[0] == 'map' and t[4] is not None and len(t[1]) == 1 and t[2] == t[1][0] and t[3] == ('p', tasks_param):
             mvar, mterm = name, t
             break
-    R.require(mvar is not None, 'anchor: list of matching tasks (a filter over all given tasks) not found in _find_task_full_name')
+    entry_f = f
+    if mvar is None:
+        # the matching may have moved into a private module-level function that the entry point delegates to (a wrapper around it)
+        for n_ in A.typer.own_nodes(f):
+            if isinstance(n_, ast.Call) and isinstance(n_.func, ast.Name):
+                g_ = next((h for h in A.prog.functions.values() if h.name == n_.func.id and h.cls is None and h.parent is None and h.module is f.module and h is not f), None)
+                if g_ is None or len(g_.params) < 2:
+                    continue
+                for name in sorted({x.id for x in A.typer.own_nodes(g_) if isinstance(x, ast.Name) and isinstance(x.ctx, ast.Store)}):
+                    t = A.sym.local_term(g_, None, name)
+                    if t[0] == 'map' and t[4] is not None and len(t[1]) == 1 and t[2] == t[1][0] and t[3] == ('p', g_.params[1]):
+                        mvar, mterm, f, tasks_param = name, t, g_, g_.params[1]
+                        cfg = A.cfg(f)
+                        break
+                if mvar is not None:
+                    break
+    R.require(mvar is not None, 'anchor: list of matching tasks (a filter over all given tasks) not found in _find_task_full_name (or in a function it delegates to)')
     R.ok('R10.2', '_find_task_full_name: matches', f'{mvar} = all tasks that match', witness=[pretty(mterm)[:200]], where=where(f))
 
     def facts_ast(nid):
@@ -211,10 +227,10 @@ def run(A, R: Report, thorough: bool):
     n5 = 0
     amb = sorted({raised_class(rn.ast) for rn in r_many})
     for g in A.prog.functions.values():
-        if g is f or not g.module.name.startswith('taskchain'):
+        if g is f or g is entry_f or not g.module.name.startswith('taskchain'):
             continue
         for tr in [n_ for n_ in A.typer.own_nodes(g) if isinstance(n_, ast.Try) and n_.handlers]:
-            calls = [c for st in tr.body for c in ast.walk(st) if isinstance(c, ast.Call) and src(c.func).split('.')[-1] == f.name]
+            calls = [c for st in tr.body for c in ast.walk(st) if isinstance(c, ast.Call) and src(c.func).split('.')[-1] == entry_f.name]
             if not calls:
                 continue
             cg5 = A.cfg(g)
@@ -255,7 +271,7 @@ def run(A, R: Report, thorough: bool):
     cg = A.cg
 
     def goal(e):
-        return e.target.kind == 'func' and e.target.func is f
+        return e.target.kind == 'func' and e.target.func is entry_f
 
     for cname, mname in ENTRY:
         ci = A.cls(cname)
@@ -287,4 +303,27 @@ def run(A, R: Report, thorough: bool):
         m = ci.methods.get(mname)
         if m is not None:
             check_stateless(A, R, 'R10.4', f'{cname}.{mname}', [Ctx(m, ('inst', ci))], 'a remembered resolution is reused for another set of task names (another chain, more tasks): ambiguity is no longer detected', any_receiver=False, at=where(m))
-    check_stateless(A, R, 'R10.4', '_find_task_full_name', [Ctx(f, None)], 'the resolver must not remember earlier answers', any_receiver=True, at=where(f))
+    check_stateless(A, R, 'R10.4', '_find_task_full_name', [Ctx(entry_f, None)], 'the resolver must not remember earlier answers', any_receiver=True, at=where(entry_f))
+
+    # ---- R10.7 the duplicate-input test compares exact names
+    R.rule('R10.7', 'while the inputs of a task are wired, "this name is already an input" is an exact-key test (not the short-name lookup of InputTasks.__contains__)', floor=1)
+    fpd7 = A.func('Chain._process_dependencies')
+    itc7 = A.cls('InputTasks')
+    from ..types import Ctx as _Ctx7
+    n7 = 0
+    for g_ in [fpd7] + list(fpd7.nested.values()):
+        cx = _Ctx7(g_, None)
+        for n_ in A.typer.own_nodes(g_):
+            if isinstance(n_, ast.Compare) and len(n_.ops) == 1 and isinstance(n_.ops[0], (ast.In, ast.NotIn)):
+                comp = n_.comparators[0]
+                tys = A.typer.expr(comp, cx)
+                exact = isinstance(comp, ast.Call) and isinstance(comp.func, ast.Attribute) and comp.func.attr == 'keys' and any(t_[0] == 'inst' and t_[1] is itc7 for t_ in A.typer.expr(comp.func.value, cx))
+                fuzzy = any(t_[0] == 'inst' and t_[1] is itc7 for t_ in tys)
+                if exact or fuzzy:
+                    n7 += 1
+                    R.check(not fuzzy, 'R10.7', f'{g_.short}: `{src(n_)[:60]}`', key_of('fuzzy-duplicate-test', src(n_)[:60]), 'exact key membership',
+                            f'`{src(n_)[:70]}` goes through InputTasks.__contains__, which resolves short names: a dependant that lists `g:a` and then `a` (two different tasks) is rejected as declaring the same input twice - '
+                            'and only in that order', where=where(g_, n_))
+    if n7 == 0:
+        R.undecided('R10.7', 'Chain._process_dependencies', 'duplicate-input test not recognised', where=where(fpd7))
+
